@@ -305,7 +305,7 @@ func c06Cases(quick bool) []*c06Case {
 	add("discard/token-with-method", "@start s = A*! B\n", "func (t Token) Discard() bool { return t.Idx%2 == 1 }\n\nfunc (p *parser) on_s(xs []Token, b Token) int {\n\tn := 0\n\tfor i := 100; i < b.Idx; i++ {\n\t\tif i%2 == 0 {\n\t\t\tn++\n\t\t}\n\t}\n\tp.expect(\"number of tokens delivered for A*!\", any(len(xs)), any(n))\n\treturn 1\n}\n", nil, true, 1)
 	// Axis 3: layouts.
 	base := "func (p *parser) on_a(_ Token) S { return S{V: 7} }\n\n"
-	okS := "func (p *parser) on_s(x S, _ Token) int {\n\tp.expect(\"parameter of on_s\", any(x), any(S{V: 7}))\n\treturn 1\n}\n"
+	okS := "func (p *parser) on_s(x S, _ Token) int {\n\tp.expect(\"parameter of on_s\", any(x), any(S{V: 7}))\n\tvar zero int\n\treturn zero\n}\n"
 	add("layout/exact", "@start s = a B\na = A\n", base+okS, nil, true, 1)
 	add("layout/shared-method", "@start s = a B\na = A | C\n", base+okS, nil, true, 1)
 	add("layout/shared-method-interface", "@start s = a B | c B\na = A\nc = C\n", base+"func (p *parser) on_c(_ Token) *S { return thePtr }\n\nfunc (p *parser) on_s(x I, _ Token) int { return 1 }\n", nil, true, 0)
@@ -316,6 +316,9 @@ func c06Cases(quick bool) []*c06Case {
 	add("layout/orphan-method", "@start s = a B\na = A\n", base+okS+"\nfunc (p *parser) on_s__orphan(x S, _ Token, _ Token) int { return 2 }\n", nil, false, 0, "go:on_s__orphan(")
 	add("layout/orphan-method-same-arity", "@start s = a B\na = A\n", base+okS+"\nfunc (p *parser) on_s__orphan(x int, _ Token) int { return 2 }\n", nil, false, 0, "go:on_s__orphan(")
 	add("layout/unequal-returns", "@start s = a B | B\na = A\n", base+okS+"\nfunc (p *parser) on_s__b(_ Token) string { return \"\" }\n", nil, false, 0, "go:on_s(", "go:on_s__b(")
+	add("layout/unequal-returns-assignable-any-first", "@start s = a B | B\na = A\n", base+strings.Replace(strings.Replace(okS, ") int {", ") any {", 1), "var zero int", "var zero any", 1)+"\nfunc (p *parser) on_s__b(_ Token) int { return 2 }\n", nil, false, 0, "go:on_s(", "go:on_s__b(")
+	add("layout/unequal-returns-assignable-any-second", "@start s = a B | B\na = A\n", base+okS+"\nfunc (p *parser) on_s__b(_ Token) any { return 2 }\n", nil, false, 0, "go:on_s(", "go:on_s__b(")
+	add("layout/unequal-returns-named-slice", "@start s = a B | B\na = A\n", base+strings.Replace(strings.Replace(okS, ") int {", ") []int {", 1), "var zero int", "var zero []int", 1)+"\nfunc (p *parser) on_s__b(_ Token) NS { return nil }\n", nil, false, 0, "go:on_s(", "go:on_s__b(")
 	add("layout/unknown-rule", "@start s = a B\na = A\n", base+okS+"\nfunc (p *parser) on_zzz(_ Token) int { return 2 }\n", nil, false, 0, "go:on_zzz(")
 	add("layout/wrong-arity", "@start s = a B\na = A\n", base+"func (p *parser) on_s(x S) int { return 1 }\n", nil, false, 0, "lox:@start s = a B", "go:on_s(")
 	add("layout/no-result", "@start s = a B\na = A\n", base+"func (p *parser) on_s(x S, _ Token) {}\n", nil, false, 0, "go:on_s(")
